@@ -42,58 +42,64 @@ def _solve1(pc, goal, timeout_ms, want_model=True, use_cvc5=True, quick_candidat
     quantified = any(has_quant(f) for f in fs)
     qf_model = None
     if quantified:
-        # stage 1: deterministic instantiation to a quantifier-free problem
+        # stage 1: deterministic instantiation to a quantifier-free problem, in passes of growing candidate sets:
+        #   0 plain  1 + neighbours / shifted index terms  2 + arrays given by the same function symbol share their read sets
+        # `unsat` of any pass is a proof.  A `sat` of a pass that reached its fix-point is a candidate counter-model (kept from the
+        # first such pass); a `sat` after a truncated instantiation (instance / time budget) says nothing.
         try:
-            qf, _ = qinst.to_qf(fs)
-            t_inst = time.time() - t0
-            s = z3.Solver()
-            s.set("timeout", timeout_ms)
-            s.add(*qf)
-            r = s.check()
-            if r == z3.sat and OFFSETS:
-                # second attempt with the +-1 neighbours of the index terms (shifted lists)
-                qf, _ = qinst.to_qf(fs, offsets=True)
-                if os.environ.get("PYVC_DEBUG"):
-                    print("qf-stage offsets retry", _)
+            for level in ((0, 1, 2) if OFFSETS else (0,)):
+                qf, st = qinst.to_qf(fs, offsets=level)
                 s = z3.Solver()
                 s.set("timeout", timeout_ms)
                 s.add(*qf)
                 r = s.check()
-            if r == z3.unsat:
-                return "unsat", time.time() - t0, "z3-qf", None
-            if r == z3.sat and _.get("truncated"):
-                # the instantiation stopped on its time / instance budget (load dependent): its counter-model says nothing
                 if os.environ.get("PYVC_DEBUG"):
-                    print("qf-stage sat after a truncated instantiation: not a candidate")
-            elif r == z3.sat and quick_candidate:
-                # vacuity (cover) checks only need 'not refuted': a model of the instantiated problem is enough, the quantified solver is not asked
-                return "candidate", time.time() - t0, "z3-qf-candidate", None
-            elif r == z3.sat:
-                qf_model = s.model()
-                if os.environ.get("PYVC_DUMP_CAND"):
+                    print("qf-stage pass", level, r, st)
+                if os.environ.get("PYVC_DUMP_SLOW") and st.get("instances", 0) >= 10000:
                     s0 = z3.Solver()
                     s0.add(*fs)
-                    with open(os.path.join(os.environ["PYVC_DUMP_CAND"], f"cand{abs(hash(s0.to_smt2())) % 10**8}.smt2"), "w") as f:
+                    with open(os.path.join(os.environ["PYVC_DUMP_SLOW"], f"slow{abs(hash(s0.to_smt2())) % 10**8}.smt2"), "w") as f:
                         f.write(s0.to_smt2())
-                if os.environ.get("PYVC_DEBUG"):
-                    print("qf-stage sat (candidate)", _["instances"], _["rounds"])
-            elif os.environ.get("PYVC_DEBUG"):
-                print("qf-stage", r)
+                if r == z3.unsat:
+                    return "unsat", time.time() - t0, "z3-qf", None
+                if r == z3.sat and quick_candidate:
+                    # vacuity (cover) checks only need 'not refuted': a model of the instantiated problem is enough
+                    return "candidate", time.time() - t0, "z3-qf-candidate", None
+                if r == z3.sat and not st.get("truncated") and qf_model is None:
+                    qf_model = s.model()
+                if r == z3.unknown:
+                    break
+            if os.environ.get("PYVC_DUMP_CAND"):
+                s0 = z3.Solver()
+                s0.add(*fs)
+                with open(os.path.join(os.environ["PYVC_DUMP_CAND"], f"{'cand' if qf_model is not None else 'trunc'}{abs(hash(s0.to_smt2())) % 10**8}.smt2"), "w") as f:
+                    f.write(s0.to_smt2())
         except (OverflowError, ValueError, z3.Z3Exception) as e:
             if os.environ.get("PYVC_DEBUG"):
                 print("qf-stage failed:", repr(e)[:200])
                 if os.environ.get("PYVC_DEBUG") == "2":
                     import traceback
                     traceback.print_exc()
-    s = z3.Solver()
-    s.set("timeout", timeout_ms if not quantified else min(timeout_ms, 10000))
-    s.add(*fs)
-    r = s.check()
+    if qf_model is not None and os.environ.get("PYVC_NO_CONFIRM"):
+        # test switch: behave as if the quantified solver could not confirm the counter-model (what happens on a loaded machine)
+        return "candidate", time.time() - t0, "z3-qf-candidate", qf_model
+    # the quantified problem itself (z3's own instantiation heuristics): answers here depend on the random seed, so a few seeds are tried
+    attempts = [(0, timeout_ms)] if not quantified else [(0, min(timeout_ms, 10000)), (7, min(timeout_ms, 10000)), (23, min(timeout_ms, 20000))]
+    label = "z3" if not quantified else "z3-quant"
+    for seed, tmo in attempts:
+        s = z3.Solver()
+        s.set("timeout", tmo)
+        if seed:
+            s.set("random_seed", seed)
+        s.add(*fs)
+        r = s.check()
+        if r != z3.unknown:
+            break
     dt = time.time() - t0
     if r == z3.unsat:
-        return "unsat", dt, "z3", None
+        return "unsat", dt, label, None
     if r == z3.sat:
-        return "sat", dt, "z3", s.model() if want_model else None
+        return "sat", dt, label, s.model() if want_model else None
     if os.environ.get("PYVC_DUMP"):
         with open(os.path.join(os.environ["PYVC_DUMP"], f"vc{abs(hash(s.to_smt2())) % 10**8}.smt2"), "w") as f:
             f.write(s.to_smt2())
